@@ -10,7 +10,7 @@ use std::os::unix::fs::MetadataExt;
 
 pub static DEF: PropDef = PropDef {
     id: "C16",
-    rule: "format strings from the statement's grammar: literal text (ASCII and multi-byte; no '%' or backslash), escapes \\a \\b \\f \\n \\r \\t \\v \\\\ \\0 \\NNN (three octal digits, 001-377: the byte with that value), '%%', directives p f h H P d s n i U G m y Y l with optional '-' flag and width 0-40, 1-8 components; rendered by find in process on a tree that holds every creatable type (regular files with sizes and 12-bit modes incl. setuid/setgid/sticky, directories two levels deep, fifo, socket, hard link, links to file / directory / nothing / themselves, foreign owners) under starting points spelled c/d, ./c/d, c/d/, c/d//, ./c/d/., c/d/../d, absolute, c//d, '.', a link to a directory as such and with a trailing '/' or '/.', 1 case in 4 with -depth, under -P/-H/-L, through -printf (stdout) or -fprintf (file). Exhaustive sub-run: every format of <= 2 (thorough 3) components over a 32-component alphabet. Oracle: an independent renderer fed by lstat/stat/readlink as the follow mode prescribes and by the reference walker's path strings; the output must equal the concatenation over the visit order, byte for byte. Identities checked on dedicated runs: %p == the -print path; %H == the starting point as given and %H + '/' + %P == %p below it; %y / %Y letters agree with which -type / -xtype selects the entry. Non-trivial = the format has >= 2 directives, one with a width, and some visited entry is a link or lies below a starting point not spelled as a plain name. Distinct = distinct case JSON.",
+    rule: "format strings from the statement's grammar: literal text (ASCII and multi-byte; no '%' or backslash), escapes \\a \\b \\f \\n \\r \\t \\v \\\\ \\0 \\NNN (three octal digits, 001-377: the byte with that value), '%%', directives p f h H P d s n i U G m y Y l with optional '-' flag and width 0-40, 1-8 components; rendered by find in process on a tree that holds every creatable type (regular files with sizes and 12-bit modes incl. setuid/setgid/sticky, directories two levels deep, fifo, socket, hard link, links to file / directory / nothing / themselves, foreign owners) under starting points spelled c/d, ./c/d, c/d/, c/d//, ./c/d/., c/d/../d, absolute, c//d, '.', a link to a directory as such and with a trailing '/' or '/.', 1 case in 4 with -depth, under -P/-H/-L, through -printf (stdout) or -fprintf (file). Exhaustive sub-run: every format of <= 2 (thorough 3) components over a 32-component alphabet. Oracle: an independent renderer fed by lstat/stat/readlink as the follow mode prescribes and by the reference walker's path strings; the output must equal the concatenation over the visit order, byte for byte. Identities checked on dedicated runs: %p == the -print path; %H == the starting point as given and %H + '/' + %P == %p below it; %y / %Y letters agree with which -type / -xtype selects the entry. Sub-run times: one file whose access/modification time is set to an exact (seconds, nanoseconds) pair - seconds at minute/day/leap-day/2038 boundaries, before 1970, random; nanoseconds 0, d*10^k, random; status-change time read back - rendered as %X@|%XS|%X+|%XY-%Xm-%Xd+%XH:%XM:%XS|%XY-%Xm-%Xd %XH:%XM|%t under TZ=UTC (X in A,T,C; %X@ also with a width); oracle: the decimal time stamp with a ten-digit fraction, a calendar conversion written in the harness, %X+ == what its parts give, %a/%c/%t == ctime(3) with the fraction (non-trivial there = nanoseconds end in a zero, a time before 1970, a width, or a day of the month below 10). Non-trivial = the format has >= 2 directives, one with a width, and some visited entry is a link or lies below a starting point not spelled as a plain name. Distinct = distinct case JSON.",
     assumptions: &[
         "width/padding is asserted on values that are ASCII (entry names in the tree are ASCII; multi-byte text appears as literal text only)",
         "modes always have an owner permission bit so that %m has no leading zero whose printing the statement leaves open",
